@@ -500,6 +500,14 @@ func (w *vc10World) step() {
 				off = target
 			case io.SeekCurrent:
 				off = target - w.cur()
+				if !g.seekNeg {
+					for _, s := range w.states { // offset ambiguous after WriteAt: stay >= 0 in every admissible state
+						if s.off+off < 0 {
+							whence, off = io.SeekStart, target
+							break
+						}
+					}
+				}
 			case io.SeekEnd:
 				off = target - w.size()
 				if off != 0 && !g.seekEnd {
@@ -775,11 +783,11 @@ func (w *vc10World) opSeek(off int64, whence int) {
 		w.fired["stale-reader"] = true
 	}
 	if whence >= io.SeekStart && whence <= io.SeekEnd {
-		neg := true
+		neg := false // negative in at least one admissible state
 		for _, s := range w.states {
 			base := map[int]int64{io.SeekStart: 0, io.SeekCurrent: s.off, io.SeekEnd: int64(len(s.data))}[whence]
-			if base+off >= 0 {
-				neg = false
+			if base+off < 0 {
+				neg = true
 			}
 		}
 		if neg {
